@@ -12,7 +12,7 @@ LEVEL_TEXT = ("Static structural proof of necessary conditions: (R19.1) the port
               "the same function; (R19.3) functions that write into the cache are reachable only from inside a "
               "`with CacheLock(...)` body; (R19.4) no `except A or B` handler. Mutual exclusion and crash "
               "consistency as properties of executions, timeouts and refresh intervals are NOT decided.")
-LEVEL_EXTRA = 'Added after the seeded evaluation: (R19.2) the temporary name cannot equal the final name (callers pass a temporary file); (R19.5) the lock file is never removed or renamed; (R19.6) a lock body that fetches from the network keeps write_time on. (R19.7) looking up a version that is missing from the cache folder (re)runs the local population. (R19.8) only time-recording holders are refused inside the refresh interval; (R19.9) the last-refresh time is read while the lock is held.'
+LEVEL_EXTRA = 'Added after the seeded evaluation: (R19.2) the temporary name cannot equal the final name (callers pass a temporary file); (R19.5) the lock file is never removed or renamed; (R19.6) a lock body that fetches from the network keeps write_time on. (R19.7) looking up a version that is missing from the cache folder (re)runs the local population. (R19.8) only time-recording holders are refused inside the refresh interval; (R19.9) the last-refresh time is read while the lock is held. (R19.10) the lock path is a path join under the folder; (R19.11) an existing cached file is returned only under a comparison with its computed hash.'
 
 MODULES = ["hed.schema.hed_cache", "hed.schema.hed_cache_lock"]
 HANDLER_MODULES = MODULES + ["hed.schema.hed_schema_io", "hed.schema.schema_io.schema_util"]
@@ -350,3 +350,55 @@ def run(ctx):
                   "the 'too recent' refusal is applied to every holder, also to the local population from the bundled schemas "
                   "(write_time=False): after any refresh attempt (even a failed, offline one) an empty or incomplete cache cannot be "
                   "populated for the whole interval and every load fails with fileNotFound", desc="interval refusal only for write_time holders")
+
+    # ---------------- R19.10: the lock file lives inside the cache folder
+    ctx.rule("R19.10", "the lock path is a path join under the folder, so every spelling of the folder names the same lock file")
+    cl_init = prog.find_class("CacheLock").methods.get("__init__")
+    if cl_init is None:
+        raise AnalysisError("anchor CacheLock.__init__ vanished")
+    ctx.saw(cl_init)
+    fpar = cl_init.params()[1]
+    n_lockpath = 0
+    for a in walk_no_nested(cl_init.node):
+        if isinstance(a, ast.Assign) and any(isinstance(t, ast.Attribute) and "lock" in t.attr and "name" in t.attr for t in a.targets):
+            n_lockpath += 1
+            val = a.value
+            ok = isinstance(val, ast.Call) and call_name(val) == "join" and val.args and \
+                any(isinstance(x, ast.Name) and x.id == fpar for x in ast.walk(val.args[0])) and \
+                all(not any(isinstance(x, ast.Name) and x.id == fpar for x in ast.walk(r)) for r in val.args[1:])
+            ctx.check(ok, "R19.10", cl_init.qualname, a, loc(cl_init, a),
+                      "the lock file name is built from the folder text instead of joined under the folder: 'cache' and 'cache/' (or a "
+                      "relative and an absolute spelling) then lock different files, so two processes refresh the same folder at once",
+                      desc="lock path = os.path.join(folder, constant)")
+    ctx.floor("R19.10", "lock path definitions in CacheLock.__init__", n_lockpath, 1)
+
+    # ---------------- R19.11: an existing cached file is handed back only after its hash was compared with the published one
+    ctx.rule("R19.11", "_cache_hed_version returns the existing file only under a comparison with its computed hash")
+    from sa.dataflow import ReachingDefs, depends_on
+    chv = prog.find_function("hed_cache._cache_hed_version")
+    ctx.saw(chv)
+    v11 = view(ctx, chv)
+    rd11 = ReachingDefs(chv)
+    n_ret = 0
+    for n_ in v11.cfg.nodes:
+        if n_.kind != "stmt" or not isinstance(n_.ast, ast.Return) or n_.ast.value is None:
+            continue
+        if isinstance(n_.ast.value, ast.Call) or (isinstance(n_.ast.value, ast.Constant) and n_.ast.value.value is None):
+            continue        # the download path / nothing cached
+        n_ret += 1
+
+        def hash_test(t):
+            return any(isinstance(x, ast.Compare) and isinstance(x.ops[0], (ast.Eq, ast.NotEq)) for x in ast.walk(t)) and \
+                depends_on(rd11, t, t, lambda x: isinstance(x, ast.Call) and "sha" in (call_name(x) or "").lower())
+        g = v11.guard_for(n_, hash_test)
+
+        def when_equal(t):
+            if isinstance(t, ast.UnaryOp) and isinstance(t.op, ast.Not):
+                return {not x for x in when_equal(t.operand)}
+            if isinstance(t, ast.Compare) and len(t.ops) == 1:
+                return {True} if isinstance(t.ops[0], ast.Eq) else {False} if isinstance(t.ops[0], ast.NotEq) else {True, False}
+            return {True, False}
+        ctx.check(g is not None and when_equal(g[0].ast) == {g[1]}, "R19.11", chv.qualname, n_.ast, loc(chv, n_.ast),
+                  "the cached file is returned on a path that does not compare its hash with the published one: a torn or stale file "
+                  "under the final name is never replaced by a refresh", desc="existing file returned only when its hash matches")
+    ctx.floor("R19.11", "returns of the existing file in _cache_hed_version", n_ret, 1)
